@@ -3,7 +3,9 @@ package c05
 import (
 	"fmt"
 	"runtime"
+	"strings"
 	"testing"
+	"time"
 
 	"pgregory.net/rapid"
 	"verif/harness/pbt"
@@ -35,6 +37,13 @@ func check(c Case) (r pbt.Result) {
 	defer runtime.GOMAXPROCS(old)
 	for i := 0; i < c.Repeat; i++ {
 		ri := vrun.Check(c.V)
+		if ri.Fail == "" {
+			// Run has returned: every cell goroutine it started must be gone (one that is still alive is either still
+			// writing - a race with the caller reading the results - or will never be joined)
+			if left := cellGoroutinesLeft(); left != "" {
+				ri.Fail = "a goroutine started by Run is still alive 3 s after Run returned:\n" + left
+			}
+		}
 		if i == 0 {
 			r = ri
 			r.NonTrivial = c.V.N >= 2
@@ -63,5 +72,28 @@ func TestCellCountBoundariesRaceFree(t *testing.T) {
 		if !pbt.Direct(t, c, check) {
 			return
 		}
+	}
+}
+
+// cellGoroutinesLeft waits (up to 3 s) for the goroutines created by a model's Run to finish exiting and returns the
+// stack of one that does not.
+func cellGoroutinesLeft() string {
+	buf := make([]byte, 1<<20)
+	for deadline := time.Now().Add(3 * time.Second); ; {
+		n := runtime.Stack(buf, true)
+		for _, g := range strings.Split(string(buf[:n]), "\n\n") {
+			if strings.Contains(g, "created by github.com/flowmatters/openwater-core/models/") {
+				if time.Now().After(deadline) {
+					if len(g) > 900 {
+						g = g[:900]
+					}
+					return g
+				}
+				goto again
+			}
+		}
+		return ""
+	again:
+		time.Sleep(200 * time.Microsecond)
 	}
 }
